@@ -23,6 +23,9 @@ pub fn resolve_label(
 
         let symbol = defs.symbols.get_mut(item_ref);
         let prev_value = symbol.value.clone();
+
+        #[cfg(hlorenzi_customasm_verif)]
+        crate::verif::note("prev", crate::verif::value_of(&prev_value));
         symbol.value = expr::Value::Integer(value);
         symbol.bankdef_ref = Some(ctx.bank_ref);
 
